@@ -261,6 +261,11 @@ impl<'a, 'b: 'a, R: Read> RowParser<'a, 'b, R> {
                 break;
             }
 
+            if self.parser.lexer.cur.value.is_none() {
+                // End of input, there is nothing more to read for this row
+                break;
+            }
+
             let val = self.parser.parse_value()?;
             if col_num >= cols.len() {
                 return self
